@@ -20,11 +20,11 @@ theorem getD_orL (a b : List Bool) (h : a.length = b.length) (k : Nat) :
 theorem getD_andL' (a b : List Bool) (k : Nat) :
     (andL a b).getD k false = (a.getD k false && b.getD k false) := getD_andL a b k
 
-/-- the current order keeps a disc cell exactly when it lies inside the ellipse (or no crop is requested) -/
-theorem poissonFrame_disc_cell (crop : Bool) (rows cols : Nat) (radius : Int) (raster : List Bool)
+/-- the pinned order kept a disc cell exactly when it lies inside the ellipse (or no crop is requested) -/
+theorem poissonFramePinned_disc_cell (crop : Bool) (rows cols : Nat) (radius : Int) (raster : List Bool)
     (hl : raster.length = rows * cols) (k : Nat) (hd : (centeredDisk rows cols radius).getD k false = true) :
-    (poissonFrame crop rows cols radius raster).getD k false = (!crop || (ellipse rows cols).getD k false) := by
-  unfold poissonFrame
+    (poissonFramePinned crop rows cols radius raster).getD k false = (!crop || (ellipse rows cols).getD k false) := by
+  unfold poissonFramePinned
   have hlen : raster.length = (centeredDisk rows cols radius).length := by rw [hl, length_centeredDisk]
   cases crop
   · simp only [Bool.false_eq_true, if_false, Bool.not_false, Bool.true_or]
@@ -32,10 +32,10 @@ theorem poissonFrame_disc_cell (crop : Bool) (rows cols : Nat) (radius : Int) (r
   · simp only [if_true, Bool.not_true, Bool.false_or]
     rw [getD_andL', getD_orL _ _ hlen, hd, Bool.or_true, Bool.true_and]
 
-theorem poissonFrameRepaired_disc_cell (crop : Bool) (rows cols : Nat) (radius : Int) (raster : List Bool)
+theorem poissonFrame_disc_cell (crop : Bool) (rows cols : Nat) (radius : Int) (raster : List Bool)
     (hl : raster.length = rows * cols) (k : Nat) (hd : (centeredDisk rows cols radius).getD k false = true) :
-    (poissonFrameRepaired crop rows cols radius raster).getD k false = true := by
-  unfold poissonFrameRepaired
+    (poissonFrame crop rows cols radius raster).getD k false = true := by
+  unfold poissonFrame
   have hlen : (if crop then andL raster (ellipse rows cols) else raster).length = (centeredDisk rows cols radius).length := by
     cases crop
     · simp [hl, length_centeredDisk]
